@@ -43,6 +43,11 @@ def podSpec (codec : String) : Option (Nat × Nat) :=
   | "pubkey" => some (32, 44) | "ct" => some (64, 88) | "handle" => some (32, 44)
   | "cmt" => some (32, 44) | "gct2" => some (96, 132) | "gct3" => some (128, 176)
   | "aect" => some (36, 48)
+  -- proof pod types: (byte length, length of the padded base64 text)
+  | "p-zero" => some (96, 128) | "p-pubkey" => some (64, 88) | "p-ctct" => some (224, 300)
+  | "p-ctcmt" => some (192, 256) | "p-val2" => some (160, 216) | "p-val3" => some (192, 256)
+  | "p-bval2" => some (160, 216) | "p-bval3" => some (192, 256) | "p-cap" => some (256, 344)
+  | "p-range64" => some (672, 896) | "p-range128" => some (736, 984) | "p-range256" => some (800, 1068)
   | _ => none
 
 def opDecode (a : List String) : String :=
